@@ -90,6 +90,11 @@ def warm_and_skew_cases(tier, seed):
                 yield {"label": "amo-outcome-lost-warm-sandbox", "prog": {"body": body}, "prog_seed": 1800 + i, "pattern": {"p": "plain"}, "max_inv": 14, "max_raises": 4,
                        "faults": [{"match": {"op": "checkpoint", "n": k}, "err": err, "when": when}], "opts": {"warm": True, "hang_s": 3.0}}
                 i += 1
+    # the service reports a step that has not retried yet WITHOUT a StepDetails member (an all-default structure left out)
+    for body in (seq, par):
+        yield {"label": "amo-lean-step-details", "prog": {"body": body}, "prog_seed": 1840 + i, "pattern": {"p": "crash_enum"}, "max_inv": 16,
+               "world": {"complete": {}, "timers": "all", "lean_step_details": True}}
+        i += 1
     for skew in (3.0, 30.0, -3.0):
         for body in (seq, par):
             yield {"label": "amo-clock-skew", "prog": {"body": body}, "prog_seed": 1850 + i, "pattern": {"p": "crash_enum"}, "max_inv": 16,
